@@ -1015,6 +1015,11 @@ func (m *Machine) callNamed(fr *frame, pos token.Pos, pkgPath, name string, args
 // timeNow returns an arbitrary, non-decreasing wall-clock instant (no monotonic reading).
 func (m *Machine) timeNow(fn *ssa.Function) Value {
 	// time.Time{wall uint64, ext int64, loc *Location}; wall without hasMonotonic: ext = seconds since year 1, wall low 30 bits = nsec
+	if m.Spec.ClockLo != 0 && m.Spec.ClockLo == m.Spec.ClockHi {
+		// fixed clock: the harness does not depend on time (seeds of random sources and the like)
+		const unixToInternal0 = (1969*365 + 1969/4 - 1969/100 + 1969/400) * 86400
+		return Struct{m.bv(64, 0), m.i64(m.Spec.ClockLo + unixToInternal0), (*Value)(nil)}
+	}
 	sec := m.F.Var(fmt.Sprintf("v_now%d_sec", m.clockN), sym.BV(64))
 	var nsec *sym.Term
 	if m.Spec.ClockNanos {
